@@ -444,6 +444,19 @@ func c10Eval(c *fw.Ctx, data any) {
 		c.Count("frames_delivered_on_failing_streams", int64(len(order)))
 	}
 	_ = complete
+	// whatever happened to the connection: a frame for which a parser goroutine obtained a message has left the
+	// de-framer complete, and the consumer never stopped draining - it must have been delivered
+	s.parser.mu.Lock()
+	parsed := append([]uint32(nil), s.parser.parsedXids...)
+	s.parser.mu.Unlock()
+	c.Count("frames_parsed_by_stream", int64(len(parsed)))
+	for _, x := range parsed {
+		j := int(x) - 1
+		if j >= 0 && j < len(frames) && dumps[j] != 0 && seen[j] == 0 {
+			viol("loss", "parsed-but-not-delivered", fmt.Sprintf("frame %d (xid %d, %d bytes) was handed to the parser, which returned a message, but the message never reached the consumer although it kept draining until every goroutine was parked", j, x, len(frames[j])))
+			break
+		}
+	}
 	// delivered messages stay unchanged while later frames went through recycled buffers
 	for i, d := range s.delivered {
 		if d.Nil {
